@@ -2,14 +2,16 @@ SPECIFICATION Spec
 CONSTANTS
   N = 3
   T = 3
-  Builder = "new"
+  Builder = "key"
   ExcludeTouch = FALSE
   U = 1
-  EmitOn = FALSE
+  EmitOn = TRUE
   TruncEnd = FALSE
   ExcludeZeroPairs = FALSE
 INVARIANT TotalOrder
 INVARIANT Sortable
 INVARIANT LIFO
 INVARIANT TreeOK
+INVARIANT AdjacentLess
+INVARIANT Emit
 CHECK_DEADLOCK FALSE
